@@ -1,6 +1,6 @@
 """What MANIFEST.json claims (tools/gen_manifest.py renders it)."""
 _T = "Trusted: CPython ast; the reference tables of the rule module (DESIGN.md §4). Assumes loops run at least once. "
-_SA = "static analysis: "
+_SA = "static analysis (ast only; canonical-form rewriting of the parsed sources, syntax-directed path enumeration with atomic guards, def-use expansion and loop/comprehension normal forms): "
 CHECKS = [
     dict(property_id="C01",
          text="Decides, for every sampling function of union/cut/intersection domains and boundaries, that the facts established about each "
@@ -38,25 +38,25 @@ CHECKS = [
               "sanitiser itself, Parallel/Sequential composition structure, input-derived state, output labelling and the selection primitive. Row "
               "independence of arbitrary tensor code is NOT decided (re-arranging ops are reported UNDECIDED).",
          note=_T + "Sub-models handed to compositions are torchphysics Models.",
-         technique=_SA + "taint analysis on expanded path expressions, class-hierarchy attribute typing"),
+         technique=_SA + "taint analysis on expanded path expressions, class-hierarchy attribute typing, axis-role interpretation, partial evaluation of the sanitiser on a table model over all orders of three variables"),
     dict(property_id="C12",
          text="Decides the pairing rules of Points/Space: column order == space order at every concatenation, cumulative variable offsets, index and "
               "space from one _compute_slice evaluation iterating the returned sub-space, space-preserving arithmetic, order-sensitive equality, "
               "batch-axis-only repeat/unsqueeze. Tensor contents are NOT decided.",
          note=_T + "Counter/OrderedDict key-order semantics of CPython.",
-         technique=_SA + "order pairing on expanded expressions, affine normal forms"),
+         technique=_SA + "order pairing on expanded expressions, affine normal forms, partial evaluation of Space slicing on a four-variable space"),
     dict(property_id="C13",
          text="Decides the calling convention of UserFunction/DomainUserFunction: keyword-only invocation through one mapping, mapping = given ∪ default "
               "selections over self.args, dominating required-name check, tail alignment of defaults, copy-on-partial-evaluation, no aliasing of "
               "mutable defaults. What the user's function computes is NOT decided.",
          note=_T + "Positional-or-keyword signatures (the property's quantifier).",
-         technique=_SA + "structural matching of expanded mappings, dominance on paths, alias/effect rules"),
+         technique=_SA + "entry families of argument mappings (iterable, key, membership condition, value) with merge order, dominance on paths, outcome typestate of partial evaluation, alias/effect rules"),
     dict(property_id="C15",
          text="Decides the StaticSampler counter automaton in closed form (uses per drawn set == interval for every interval), cache/return discipline, "
               "make_static, and for adaptive samplers the mask polarity/threshold polynomial, in-place same-mask row replacement and first-call adoption. "
               "Randomness of the retained set is NOT decided.",
          note=_T,
-         technique=_SA + "automaton extraction from path conditions, polynomial normal form of the threshold"),
+         technique=_SA + "automaton extraction from path conditions, polynomial normal form of the threshold, IEEE-exactness of the threshold at equal losses"),
     dict(property_id="C16",
          text="Decides the index algebra of the data sets: one permutation value on all coupled tensors/axes, identical windows on coupled tensors, "
               "independent digits of the joint batch index with matching __len__, and exactly-once aggregation over the loader. Batches for concrete sizes "
@@ -68,19 +68,19 @@ CHECKS = [
               "offset lists), the index tables of rot / sym_grad / convective / normal_derivative / matrix_div, zero short-circuits and accumulator dtype/device. "
               "Numerical agreement with analytic derivatives is NOT decided.",
          note=_T + "Rows of the model output depend only on the same input rows.",
-         technique=_SA + "structural rules on the ast, affine index forms in polynomial normal form, symbolic list evaluation"),
+         technique=_SA + "recurrences of loop-carried symbols (offset' = offset + dim, acc' = acc + term), affine index forms in polynomial normal form, last-axis vs axis-1 selection, symbolic list evaluation"),
     dict(property_id="C06",
          text="Decides operand selection and sign of normals on Boolean boundaries, unit length and perpendicularity of edge normals as polynomial identities "
               "(in-place column updates modelled), radial normals, sign-definiteness of n·(opposite vertex - edge start) under vertex orientation, and the "
               "direction constants of interval end points. Outwardness as geometry, NaNs and meshes are NOT decided.",
          note=_T + "Points passed to normal() lie on the boundary; operands' own normals are outward (induction).",
-         technique=_SA + "symbolic vector evaluation in rational normal form, structural matching"),
+         technique=_SA + "symbolic vector evaluation in rational normal form, sibling agreement of edge tests between membership and normal, uniform-mask short cuts"),
     dict(property_id="C09",
          text="Decides the contraction axis of the DeepONet output and the parameter/point meshgrid by an axis-role interpretation of reshape/transpose/matmul/"
               "repeat, the branch/trunk reshape agreement, autograd hygiene of the custom linear Function (only inputs saved, gradients from the required "
               "operands) and the branch-cache protocol. Numerical equivalence is NOT decided.",
          note=_T,
-         technique=_SA + "axis-role abstract interpretation, effect/ownership rules"),
+         technique=_SA + "axis-role abstract interpretation, effect/ownership rules, sibling equivalence of the two layer builders by partial evaluation for 1-3 hidden layers"),
     dict(property_id="C10",
          text="Decides every primitive measure against the analytic table in rational normal form, non-negativity in a sign domain, the composition rules of "
               "union/cut/product/translate/rotate through public volume(), the user override, density-to-count conversion, absence of parameter-dependent "
@@ -92,7 +92,7 @@ CHECKS = [
               "side lengths, triangle mirror, union mixture ratio, dependent-product acceptance, LHS strata and per-axis permutation, Normal proposals). "
               "No distributional statement is decided; an algorithm replacement is UNDECIDED, never a violation.",
          note=_T + "torch.rand / randperm / Normal are the named laws.",
-         technique=_SA + "rational normal forms with rational exponents, structural pairing rules"),
+         technique=_SA + "rational normal forms with rational exponents, symbolic stratum formula, finite instantiation of the dependency classification, index provenance"),
     dict(property_id="C14",
          text="Decides by interprocedural effect analysis that no condition constructor writes into user containers or mutable defaults, that constructors call "
               "no state-changing method on user objects, that no module-level cache is written, that the periodic condition keeps left/right data apart and "
@@ -104,25 +104,25 @@ CHECKS = [
               "setter state, registration and fresh-set union of necessary variables (incl. order), purity of __call__ and copy-on-partial-evaluation. "
               "Equality of sampled values is NOT decided.",
          note=_T,
-         technique=_SA + "constructor round-trip dataflow, alias/effect rules"),
+         technique=_SA + "constructor round-trip dataflow (operators resolved to their dunder constructors), alias/effect rules, partial evaluation of the point-data order"),
     dict(property_id="C18",
          text="Decides box layout and corner completeness of primitives as min/max reductions over symbolic coordinates, the lattice rules of "
               "union/intersection/cut/product/translate, all-corner images under linear maps, reduction over parameter rows, consumer layout "
               "(NormalizationLayer affine map, LHS strata) and call-site/override signature compatibility. Tightness is NOT decided.",
          note=_T + "Third-party bounds are correct.",
-         technique=_SA + "symbolic reductions over corner sets, affine index forms, call-site binding simulation"),
+         technique=_SA + "symbolic reductions over corner sets with sound bound arithmetic, partial evaluation of box-building code for 1-3 axes, affine index forms, call-site binding simulation"),
     dict(property_id="C19",
          text="NARROW: decides that learnable state is registered (complete state_dict), that the callbacks save the right object at the right hook under "
               "distinct names without buffering, that solver hooks leave optimizer/scheduler state alone and restore the step counter, and inventories "
               "step-written plain state that no checkpoint captures. Everything Lightning does and bit-exact resume are NOT decided.",
          note=_T + "Lightning restores module/optimizer/scheduler state.",
-         technique=_SA + "ownership and effect inventory, structural hook rules"),
+         technique=_SA + "ownership and effect inventory, hook-order rules (state restored between on_fit_start and on_train_start), state layout fixed by constructors"),
     dict(property_id="C20",
          text="Decides that a Fourier layer never writes to (an alias/view of) its input, that between the paired rfftn/irfftn (same axes, norm, s = input shape) "
               "the spectrum is only padded/truncated and multiplied by the kernel (no re-indexing, no constant mode offsets), and the point-wise structure "
               "of FNO. Equivariance and resolution consistency as numbers are NOT decided.",
          note=_T,
-         technique=_SA + "may-alias effect analysis, operation whitelist on a def-use slice"),
+         technique=_SA + "may-alias effect analysis, operation whitelist on a def-use slice, partial evaluation of the padding vector and axis list for 1-3 spatial axes"),
 ]
 _PENDING = "not claimed"
 NOT_APPLICABLE = [
